@@ -15,9 +15,6 @@ Local Open Scope N_scope.
 Definition tverify (tab : list (N * N * N)) (k d s : N) : bool :=
   existsb (fun x => match x with (k', d', s') => N.eqb k k' && N.eqb d d' && N.eqb s s' end) tab.
 
-Definition tfund (tab : list (N * funding)) (scid : N) : funding :=
-  match alookup scid tab with Some f => f | None => FRpcErr end.
-
 Definition tscript (tab : list (N * N * bool * option N)) (b1 b2 : N) (tap : bool) : option N :=
   match find (fun x => match x with (k1, k2, t, _) => N.eqb k1 b1 && N.eqb k2 b2 && Bool.eqb t tap end) tab with
   | Some (_, _, _, r) => r
@@ -62,12 +59,15 @@ Definition kv_eqb {A} (f : A -> A -> bool) (a b : N * A) : bool :=
 (* observed graph: channels, nodes, zombie scids, closed scids (all sorted) *)
 Record snap := mkSnap {
   sn_edges : list (N * edge); sn_nodes : list (N * node);
-  sn_zombies : list N; sn_closed : list N }.
+  sn_zombies : list (N * (N * N));     (* zombie index entries WITH the stored node keys *)
+  sn_closed : list N }.
+
+Definition zkeys_eqb (a b : N * N) : bool := N.eqb (fst a) (fst b) && N.eqb (snd a) (snd b).
 
 Definition snap_matches (st : state) (s : snap) : bool :=
   list_eqb (kv_eqb edge_eqb) (s_edges st) (sn_edges s) &&
   list_eqb (kv_eqb node_eqb) (s_nodes st) (sn_nodes s) &&
-  list_eqb N.eqb (map fst (s_zombies st)) (sn_zombies s) &&
+  list_eqb (kv_eqb zkeys_eqb) (s_zombies st) (sn_zombies s) &&
   list_eqb N.eqb (s_closed st) (sn_closed s).
 
 Definition errc_eqb (a b : errc) : bool :=
@@ -91,6 +91,9 @@ Definition verdict_eqb (a b : verdict) : bool :=
 Record tstep := mkStep {
   t_restart : bool;                     (* lnd was restarted before this message *)
   t_now : N; t_peer : N; t_cid : N;     (* content id of the message bytes *)
+  t_op : option gop;                    (* a graph maintenance event instead of a message *)
+  t_fund : funding;                     (* what the chain answers for the announced scid NOW *)
+  t_best : N;                           (* best block height the gossiper works with NOW *)
   t_msg : msg;
   t_res : verdict;                      (* verdict on this message's future *)
   t_resolved : list (N * verdict);      (* earlier pending updates resolved now, by step id *)
@@ -99,14 +102,22 @@ Record tstep := mkStep {
 
 Record tcase := mkCase {
   k_cfg : config; k_alias_start : N;
+  k_sweep_always : bool;                (* graph store: bbolt true, sqlite false *)
   k_verify : list (N * N * N);
-  k_fund : list (N * funding);
   k_script : list (N * N * bool * option N);
   k_steps : list tstep;
   k_bcast : list (N * N) }.             (* content id -> times handed to Broadcast *)
 
-Definition mstep (c : tcase) :=
-  step (k_cfg c) (tverify (k_verify c)) (tfund (k_fund c)) (tscript (k_script c))
+(* the chain moves during a case (blocks connected, re-orged, outputs spent):
+   the funding oracle of a step is the answer recorded for that step, and the
+   gossiper's best height is the one it had at that step (it re-reads the
+   chain tip at every restart) *)
+Definition with_best (cfg : config) (b : N) : config :=
+  mkCfg (c_own cfg) (c_chain cfg) b (c_assume_valid cfg) (c_rebroadcast cfg) (c_prune cfg)
+        (c_burst cfg).
+
+Definition mstep (c : tcase) (t : tstep) :=
+  step (with_best (k_cfg c) (t_best t)) (tverify (k_verify c)) (fun _ => t_fund t) (tscript (k_script c))
        (talias (k_alias_start c)).
 
 Fixpoint insert_sorted (x : N * verdict) (l : list (N * verdict)) : list (N * verdict) :=
@@ -145,8 +156,14 @@ Fixpoint check_steps (c : tcase) (st : state) (i : N) (ts : list tstep)
   | [] => (rel, rev bad)
   | t :: r =>
     let cids' := ainsert i (t_cid t) cids in
-    let st := if t_restart t then restart st else st in
-    let '(st', outs) := mstep c (t_now t) (t_peer t) i st (t_msg t) in
+    let st := if t_restart t then restart (c_own (k_cfg c)) st else st in
+    match t_op t with
+    | Some o =>
+      let st' := apply_op (k_sweep_always c) (c_own (k_cfg c)) st o in
+      let ok := snap_matches st' (t_snap t) && bans_match st' (t_bans t) in
+      check_steps c st' (i + 1) r cids rel (if ok then bad else i :: bad)
+    | None =>
+    let '(st', outs) := mstep c t (t_now t) (t_peer t) i st (t_msg t) in
     let ok :=
       match outs with
       | (_, v, _) :: more =>
@@ -158,6 +175,7 @@ Fixpoint check_steps (c : tcase) (st : state) (i : N) (ts : list tstep)
       && snap_matches st' (t_snap t) && bans_match st' (t_bans t) in
     check_steps c st' (i + 1) r cids' (count_relays cids' outs rel)
                 (if ok then bad else i :: bad)
+    end
   end.
 
 Definition nonzero (l : list (N * N)) : list (N * N) :=
@@ -186,8 +204,12 @@ Fixpoint model_at (c : tcase) (st : state) (i : N) (ts : list tstep) (n : nat)
   match ts with
   | [] => None
   | t :: r =>
-    let st := if t_restart t then restart st else st in
-    let '(st', outs) := mstep c (t_now t) (t_peer t) i st (t_msg t) in
+    let st := if t_restart t then restart (c_own (k_cfg c)) st else st in
+    let '(st', outs) :=
+      match t_op t with
+      | Some o => (apply_op (k_sweep_always c) (c_own (k_cfg c)) st o, [])
+      | None => mstep c t (t_now t) (t_peer t) i st (t_msg t)
+      end in
     match n with
     | O => Some (st', outs)
     | S n' => model_at c st' (i + 1) r n'
